@@ -8,6 +8,7 @@ import Nstd.Hash.Model
     new t cap | newdef t | copy t | assign t | append t k v | prepend t k v | insert t pos k v
     remove t k | removeAt t pos | removeVal t pos | removeFront t | removeBack t | clear t | swap t
     appendAll t | removeAll t | setval t k v | hashstr <hex>
+    wb t                                 white-box: capacity, bucket chains, free list, order list as item ids
 
   After every op one line:
      <result> || <table 0> || <table 1> || eq=<t0==t1> <t1==t0> <t0==t0>
@@ -59,6 +60,16 @@ def obs (d : DState) (res : String) : String :=
   s!"{res} || {obsTable d false} || {obsTable d true} || " ++
   s!"eq={query d (.equal false true)} {query d (.equal true false)} {query d (.equal false false)}"
 
+def idsStr (l : List Nat) : String := if l.isEmpty then "-" else ",".intercalate (l.map toString)
+
+/-- white-box line: the stored chains, free list and order list as item ids (block * 4 + slot) -/
+def whiteBox (t : Table) : String :=
+  let chains := if t.allocated then
+      (List.range t.cap).filterMap (fun b => if (t.data b).isEmpty then none else some s!"{b}:{idsStr (t.data b)}")
+    else []
+  s!"wb cap={t.cap} alloc={if t.allocated then 1 else 0} blocks={t.blocks} " ++
+  s!"chains={if chains.isEmpty then "-" else "|".intercalate chains} free={idsStr t.free} order={idsStr t.order}"
+
 def tab (s : String) : Option Bool :=
   if s = "0" then some false else if s = "1" then some true else none
 
@@ -95,6 +106,10 @@ def stepLine (d : DState) (ws : List String) : DState × String :=
       let d' : DState := ⟨k, m, n, init⟩
       (d', obs d' "unit")
     | _, _, _ => (d, "bad-op")
+  | ["wb", t] =>
+    match tab t with
+    | some t => (d, whiteBox (d.st.get t))
+    | none => (d, "bad-op")
   | ["hashstr", x] =>
     match fromHex x with
     | some bs =>
